@@ -71,13 +71,13 @@ EV = ['when_all', 'stop_when', 'let_value', 'finally']
 PROPS['C04'] = dict(level='model_checking',
   bounds='sequential event-order harnesses: <=3 manual leaves with symbolic outcomes, stop request at a symbolic position (before start / between any two completions / never); instruction-level races in T=2 harnesses',
   outside='schedules interleaving at instruction granularity inside the event-order harnesses; take_until/stop_immediately (see C13); task (C10)',
-  harnesses=[SEQ('ev_%s_f%d' % (n, f), 'C04_events.cpp', 'h_ev_' + n, opts=dict(params=[f]), desc=n + ': symbolic order of leaf completions and stop request; flags(stop-before-start, leaf0 cancels inline, leaf1 cancels inline)=%d' % f) for n in EV for f in (0, 1, 3, 5, 7) if not (n == 'finally' and f == 5)] +
-            [SEQ('wa_inline_cancel', 'C04_events.cpp', 'h_wa_inline_cancel', desc='when_all: child fails inline while a pending sibling completes with done inside its stop callback')])
+  harnesses=[SEQ('ev_%s_f%d' % (n, f), 'C04_events.cpp', 'h_ev_' + n, opts=dict(params=[f], max_rec=3), desc=n + ': symbolic order of leaf completions and stop request; flags(stop-before-start, leaf0 cancels inline, leaf1 cancels inline)=%d' % f) for n in EV for f in (0, 1, 3, 5, 7) if not (n == 'finally' and f == 5)] +
+            [SEQ('wa_inline_cancel', 'C04_events.cpp', 'h_wa_inline_cancel', opts=dict(max_rec=3), desc='when_all: child fails inline while a pending sibling completes with done inside its stop callback')])
 PROPS['C01'] = dict(level='model_checking',
   bounds='same harness family as C04 (exactly-once / nothing-before-start / never-started assertions), plus C05 sequential catalogue',
   outside='I/O context senders, thread pools (see C06)',
-  harnesses=[SEQ('ev_%s_f%d' % (n, f), 'C04_events.cpp', 'h_ev_' + n, opts=dict(params=[f]), desc=n + ': exactly one completion under every event order; flags=%d' % f) for n in EV for f in (0, 1, 3, 5, 7) if not (n == 'finally' and f == 5)] +
-            [SEQ('never_started', 'C04_events.cpp', 'h_never_started', desc='connected but never started: no signal, no child started'),
+  harnesses=[SEQ('ev_%s_f%d' % (n, f), 'C04_events.cpp', 'h_ev_' + n, opts=dict(params=[f], max_rec=3), desc=n + ': exactly one completion under every event order; flags=%d' % f) for n in EV for f in (0, 1, 3, 5, 7) if not (n == 'finally' and f == 5)] +
+            [SEQ('never_started', 'C04_events.cpp', 'h_never_started', opts=dict(max_rec=3), desc='connected but never started: no signal, no child started'),
              H('wa_last_child_vs_stop', 'C01_race.cpp', ['h_complete1', 'h_stop'], 34, setup='h_setup_wa', final='h_final_wa', tier='thorough', timeout=3000, preempt=3, desc='when_all: last child completing races an external stop request (real atomics)')])
 
 PROPS['C17'] = dict(level='model_checking',
@@ -133,3 +133,8 @@ PROPS['C06'] = dict(level='model_checking',
     H('pool1_enqueue_vs_shutdown', 'C06_pool.cpp', ['h_worker', 'h_main'], 40, opts=dict(thread_of_body={'0': 0}), desc='static_thread_pool(1): schedule() then destruction racing the worker going idle'),
   ] + [SEQ('mel_seq_fifo_c%d' % c, 'C06_loops.cpp', 'h_seq_fifo', opts=dict(params=[c]), desc='manual_event_loop sequential: 3 items, stop() before run(), item %d cancelled' % (c - 1)) for c in range(4)]
     + [SEQ('trampoline_d%d_n%d' % (d, n), 'C06_loops.cpp', 'h_trampoline', opts=dict(params=[d, n], max_rec=12), desc='trampoline depth %d with %d nested schedules' % (d, n)) for d in (1, 2, 3) for n in (1, 4, 6)])
+
+PROPS['C09'] = dict(level='model_checking',
+  bounds='sequential: one spawn_future over a v2 scope and a manual leaf; every order of 3 events out of {leaf completes, await, stop, drop} enumerated (64 plans); leaf outcome (value/done) enumerated, payload symbolic',
+  outside='error completions of the spawned operation (engine limit in the exception_ptr model); instruction-level races between completion and future start/drop; v1 scope futures; spawn_detached termination; allocation faults during spawn',
+  harnesses=[SEQ('future_plan_%02d_o%d' % (p, o), 'C09_future.cpp', 'h_future', exc=True, opts=dict(params=[p, o], max_visits=200), desc='spawn_future event plan %d (base-4 digits: 0 complete, 1 await, 2 stop, 3 drop), leaf outcome %s' % (p, 'value' if o == 0 else 'done')) for p in range(64) for o in (0, 2)])
